@@ -4,6 +4,7 @@ import Pcore.Proofs.DispatchStruct
 import Pcore.Proofs.CtorNum
 import Pcore.Proofs.CtorNew
 import Pcore.Proofs.CtorCoerce
+import Pcore.Proofs.CtorHash
 import Pcore.Model.CtorNew
 import Pcore.Generated.FnFacts
 /-!
@@ -51,7 +52,7 @@ Full statement / proved / missing
                          `Init[T]`), for every constructor function, hence never a value outside the type; `C16_new_outside`:
                          a constructor result outside the type becomes `reported TYPE_MISMATCH`.
 * `Alpha.C16_newm`, `Alpha.C16_ctor_no_fault` — for the constructors modelled end to end on the driver's alphabet
-                         (Integer, Float, Numeric, Boolean, Array/Tuple, Hash/Struct without the tree-array dispatch: dispatch
+                         (Integer, Float, Numeric, Boolean, Array/Tuple, Hash/Struct with the tree-array dispatch: dispatch
                          table built by the same builder, body, assertion; also through
                          `Init[T]`): the value that comes out is in the receiver type, and no type assertion / index of a body
                          can fail because a body only runs with arguments its declaration accepts (compared value by value
@@ -72,6 +73,10 @@ Full statement / proved / missing
                          is not itself a hash.
 * `Alpha.C16_number_abs` — with `abs = true` the Numeric / Float constructor answers a non-negative integer (or the minimum
                          integer, whose negation wraps) or `|f|` of a float, which is never `< 0` (`F64.abs_not_neg`).
+* `Alpha.C16_hash_pairs`, `Alpha.C16_hash_tree` — `Hash[…].new([[k1,v1],…,[kn,vn]])` is the hash with exactly these entries in
+                         this order, asserted against the receiver, whichever dispatch takes the array; the tree walk
+                         (`tree` / `hash_tree`, Model/CtorHashTree.lean) answers a hash; its type assertions cannot fail
+                         (`C16_ctor_no_fault`), its result is asserted like every other (`C16_newm`, `C16_new_struct`).
 * `Alpha.C16_wrapper_new` — `new` on `Optional[T]`, `NotUndef[T]`, `Variant[…]` or an alias reports
                          INSTANCE_DOES_NOT_RESPOND and on `Init[wrapper, …]` CTOR_NOT_FOUND for ANY arguments (no constructor is
                          registered under the wrapper's name; the wrapped type's constructor is not consulted).
@@ -464,6 +469,24 @@ theorem C16_number_abs (from_ : Val) (tryInt : Bool) (v : Val)
     AbsResult v ∧ ∀ b, b < 2 ^ 64 → F64.ltZero (F64.abs b) = false :=
   ⟨numberBody_abs pf from_ tryInt v h, F64.abs_not_neg⟩
 
+/-! ### Hash from arrays -/
+
+/-- `Hash[K,V,…].new([[k1,v1],…,[kn,vn]])` (n ≥ 1; also for a Struct receiver): the hash with exactly these entries in this
+    order — asserted against the receiver — whichever dispatch takes the array (the tree-array dispatch does when every key
+    is an array; with one argument it wraps the pairs just the same).  Equal keys are not merged -/
+theorem C16_hash_pairs (t : Ty) (hc : ctorOf pf t = .some hashCtor) (es : List (Val × Val)) (hne : es ≠ []) :
+    newModel pf (.plain t) [.arr (es.map pairArr)] =
+      some (if inst t (.hash es) then .value (.hash es) else .reported "TYPE_MISMATCH") := by
+  simp only [newModel, recvOf, hc, newInstance, hashCtor_pairs es hne, assertInstance]
+  by_cases hi : inst t (.hash es) = true <;> simp [hi]
+
+/-- with the `tree` / `hash_tree` option the body answers a hash (the frozen tree) or refuses a key that contains a hash
+    (not modelled); no fault (C16_ctor_no_fault) -/
+theorem C16_hash_tree (entries : List Val) (option r : Val) (h : treeBody entries option = .value r) : ∃ es, r = .hash es := by
+  unfold treeBody at h
+  cases option <;> simp at h
+  exact treeLoop_hash _ entries [] r h
+
 /-! ### wrapper types, `Init[T, args…]`, `CoerceTo` -/
 
 /-- a type that wraps another: `Optional[T]`, `NotUndef[T]`, `Variant[…]`, an alias -/
@@ -560,6 +583,21 @@ example : newModel pfx (.plain (.arr (.int none none) 1 none)) [.arr [.int 1], .
 example : newModel pfx (.plain (.arr .any 1 none)) [.arr [.int 1], .bool true] = some (.value (.arr [.arr [.int 1]])) := by rfl
 example : newModel pfx (.plain .bool) [.int 0] = some (.value (.bool false)) := by rfl
 example : newModel pfx (.plain (.opt (.int none none))) [.int 0] = some (.reported "INSTANCE_DOES_NOT_RESPOND") := by rfl
+
+-- Hash from pairs / tree arrays (C16_hash_pairs, C16_hash_tree)
+example : ctorOf pfx (.hash .any .any 0 none) = .some hashCtor ∧ ctorOf pfx structA = .some hashCtor := ⟨rfl, rfl⟩
+example : outText (newModel pfx (.plain (.hash .any .any 0 none))
+    [.arr [.arr [.arr [.str "a", .str "b"], .int 1], .arr [.arr [.str "a", .str "c"], .int 2]], .str "tree"]) =
+    "value (h ((s a) (h ((s b) (i 1)) ((s c) (i 2)))))" := by decide +kernel
+example : outText (newModel pfx (.plain (.hash .any .any 0 none))
+    [.arr [.arr [.arr [], .arr [.int 5]], .arr [.arr [.int 0, .int 3], .str "x"]], .str "tree"]) = "value (h ((i 0) (i 5)))" := by
+  decide +kernel
+example : outText (newModel pfx (.plain (.hash .any .any 0 none))
+    [.arr [.arr [.arr [.int 0], .arr [.int 1]]], .str "hash_tree"]) = "value (h ((i 0) (h ((i 0) (i 1)))))" := by decide +kernel
+example : outText (newModel pfx (.plain structA) [.arr [.arr [.arr [.str "a"], .int 1]], .str "tree"]) =
+    "value (h ((s a) (i 1)))" := by decide +kernel
+example : outText (newModel pfx (.plain structA) [.arr [.arr [.arr [.str "a", .str "b"], .int 1]], .str "tree"]) =
+    "reported TYPE_MISMATCH" := by decide +kernel
 
 -- wrappers, Init[T, args], CoerceTo (hypotheses of C16_init_args / C16_init_plain / C16_coerce / C16_coerce_shape / _wrapper)
 example : outText (newModel pfx (.init (.int none none) [.int 16]) [.str "0x1F"]) = "value (i 31)" := by decide +kernel
